@@ -660,7 +660,11 @@ func connectReply(x *explore.X) {
 		cut = x.ChooseFree("cut-offset", len(ok200)) // strictly inside the 200 reply
 		wire, name = ok200[:cut], fmt.Sprintf("200 cut after %d bytes", cut)
 	}
-	rst := x.ChooseFree("reset", 2) == 1
+	endk := x.ChooseFree("reset", 3) // 0 FIN, 1 RST, 2 (round 9) neither: the upstream proxy falls silent, the connect time-out (60 s) ends the attempt
+	if endk == 2 && status != 0 {
+		x.Outcome("inadmissible") // (a complete reply needs no end of connection)
+		return
+	}
 	e := setup(x, kind, nil, nil)
 	if e == nil {
 		return
@@ -692,13 +696,14 @@ func connectReply(x *explore.X) {
 	if len(wire) > 0 {
 		hop.Send([]byte(wire))
 	}
-	if rst {
+	switch endk {
+	case 1:
 		hop.Abort()
-	} else {
+	case 0:
 		hop.Close()
 	}
 	world.Settle(90 * time.Second)
-	what := fmt.Sprintf("%s, upstream proxy answers CONNECT with %s then %s", kind, name, map[bool]string{true: "RST", false: "FIN"}[rst])
+	what := fmt.Sprintf("%s, upstream proxy answers CONNECT with %s then %s", kind, name, []string{"FIN", "RST", "silence"}[endk])
 	if headReq {
 		what = "HEAD " + what
 	}
@@ -723,9 +728,17 @@ func connectReply(x *explore.X) {
 		}
 	} else {
 		e.expectCleanError(x, what, 0, "")
+		if endk == 2 {
+			if rs := httpwire.ParseResponses(e.cl.Recv(), e.methods, false); len(rs.Msgs) == 1 {
+				x.Logf("status after silence: %d", rs.Msgs[0].Status)
+			}
+			if !hop.PeerReleased() {
+				x.Failf("upstream-connection-kept", "%s: the client has its error response but the proxy still holds the connection to the upstream proxy", what)
+			}
+		}
 	}
 	probe(x, e.w)
-	x.Outcome(fmt.Sprintf("%s reply=%d rst=%v", kind, ri, rst))
+	x.Outcome(fmt.Sprintf("%s reply=%d end=%d", kind, ri, endk))
 	e.finish(x, hop)
 }
 
